@@ -535,16 +535,24 @@ class HTMLBinaryInputStream(HTMLUnicodeInputStream):
             codecs.BOM_UTF16_LE: 'utf-16le', codecs.BOM_UTF16_BE: 'utf-16be',
         }
 
-        # Go to beginning of file and read in 4 bytes
+        # Go to beginning of file and read in 4 bytes; a source may hand them
+        # out in pieces
         string = self.rawStream.read(4)
         assert isinstance(string, bytes)
+        while len(string) < 4:
+            more = self.rawStream.read(4 - len(string))
+            if not more:
+                break
+            string += more
 
         # Try detecting the BOM using bytes from the string
-        encoding = bomDict.get(string[:3])         # UTF-8
-        seek = 3
-        if not encoding:
-            encoding = bomDict.get(string[:2])  # UTF-16
-            seek = 2
+        encoding = None
+        seek = 0
+        for bom, name in bomDict.items():
+            if string.startswith(bom):
+                encoding = name
+                seek = len(bom)
+                break
 
         # Set the read position past the BOM if one was found, otherwise
         # set it to the start of the stream
